@@ -5,6 +5,7 @@ import (
 	"math/rand"
 	"os"
 	"path/filepath"
+	"regexp"
 	"strconv"
 	"strings"
 	"time"
@@ -576,6 +577,27 @@ func RunC02(d *Driver) *Report {
 	}
 	for _, src := range TypeMatrixPrograms() {
 		evalStream(r, d, "typematrix", src, RunOpts{}, parts, true, oracle)
+	}
+	// a value stored in an any carries a concrete type, whatever expression it came from: literals, also untyped empty
+	// ones, in parentheses, sliced, concatenated, repeated, as elements and fields — typeof reports no untyped [] or {}
+	{
+		concrete := regexp.MustCompile(`^(\[\]|\{\})*(num|string|bool|any)$`)
+		for _, l := range []string{"[]", "{}", "[[]]", "[{}]", "{a:[]}", "{a:{}}", "[[] {}]", "[1]", "[[1] []]", "{a:[1] b:[]}", "[][:]", "[]+[]", "[]*2", "[[]][:1]", "[[]]+[[]]", "[[]][0]", "{a:[]}.a", "1", "\"s\""} {
+			for _, g := range []string{l, "(" + l + ")", "((" + l + "))"} {
+				src := "y:any\ny = " + g + "\naa:[]any\naa = [" + g + " 1]\nma:{}any\nma.k = " + g + "\nfunc f:any\n    return " + g + "\nend\nz := (f)\nprint (typeof y) (typeof aa[0]) (typeof ma.k) (typeof z) (typeof " + g + ")\n"
+				c := evalStream(r, d, "any-concrete", src, RunOpts{}, parts, true, oracle)
+				if c.Skipped != "" {
+					r.Disagree(Case{Stream: "any-concrete", Input: src, Real: "skipped: " + c.Skipped + " " + c.Real.ParseErr, Note: "harness program should be accepted"})
+					continue
+				}
+				for _, w := range strings.Fields(c.Real.Out) {
+					if c.Real.Class == "ok" && !concrete.MatchString(w) {
+						r.Violation(Case{Stream: "any-concrete", Input: src, Real: c.Real.Out, Spec: "a value stored in an any carries a concrete type: typeof reports no untyped [] or {}"})
+						break
+					}
+				}
+			}
+		}
 	}
 	// assignment targets: every access path (index, field, nested) into variables of every shape, with values of
 	// several types — whatever the parser accepts is executed (a string reached through a composite is not assignable)
